@@ -12,6 +12,8 @@ C2S  (a) random expression trees incl. deliberately ill-typed ones: accept / rej
      impossible dates, oversized numbers): outcome class and error span judged by TLC (Trace_Parse); the shell's
      error formatter is run on every rejection
 """
+import copy
+import datetime
 import json
 import multiprocessing
 import os
@@ -211,6 +213,158 @@ def family_of(text, ev):
     return ev['cls'] + ':' + re.sub(r'\s+', ' ', text)[:60]
 
 
+FROM_EXPR = {'none': None, 'plain': 'year = 2020', 'and': 'year = 2020 AND month > 0 AND NOT flag = "!"', 'agg': 'count(*)',
+             'aggcmp': 'max(date) = date', 'aggdeep': 'year = 2020 AND NOT (1 + count(id) > 1)'}
+FROM_DATES = {1: datetime.date(2020, 1, 1), 2: datetime.date(2020, 2, 1), 3: datetime.date(2020, 3, 1)}
+
+
+def stmt_rules_leg(ctx):
+    """FROM-clause rules for SELECT / BALANCES / JOURNAL / PRINT and attribute access (spec/StmtRules.tla)"""
+    import beanquery
+    from beanquery import parser, types
+    from beanquery.parser import ast
+    from beancount import loader
+    entries, errors, options = loader.load_string(LEDGER + """
+2020-01-04 balance Assets:Cash  -10.00 USD
+2020-01-05 price USD 0.9 EUR
+2020-01-06 event "location" "here"
+2020-01-07 document Assets:Cash "/tmp/x.pdf"
+2020-01-08 commodity USD
+2020-01-09 close Expenses:Food
+""")
+    conn = beanquery.connect('beancount:', entries=entries, errors=errors, options=options)
+    exprs = {k: (None if t is None else parser.parse('SELECT account FROM ' + t).from_clause.expression) for k, t in FROM_EXPR.items()}
+    cases = []
+    res = ctx.tlc('StmtRules', 'StmtRules.cfg', leg='MC+GEN', on_json=cases.append, workers=2)
+    if res.violated:
+        ctx.violation('spec:' + ','.join(res.violated), 'TLC: the compile mechanism disagrees with the FROM-clause rules', {'behaviour': res.behaviour[:3000]}, 'MC')
+    ctx.tlc('StmtRules', 'StmtRules_printown.cfg', leg='MC-nonvacuity', expect_violation='AcceptInv', workers=1)
+    if len(cases) != 4 * 6 * 4 * 5 * 2:
+        raise MachineryError('StmtRules emitted %d cases' % len(cases))
+
+    def build(c, text=False):
+        quals = []
+        if c['open']:
+            quals.append('OPEN ON %s' % FROM_DATES[c['open']])
+        if c['close']:
+            quals.append('CLOSE' if c['close'] < 0 else 'CLOSE ON %s' % FROM_DATES[c['close']])
+        if c['clear']:
+            quals.append('CLEAR')
+        ftext = ' '.join(([FROM_EXPR[c['from']]] if FROM_EXPR[c['from']] else []) + quals)
+        head = {'select': 'SELECT account', 'balances': 'BALANCES', 'journal': "JOURNAL 'Cash'", 'print': 'PRINT'}[c['kind']]
+        t = head + (' FROM ' + ftext if ftext else '')
+        if text:
+            return t, parser.parse(t)
+        frm = None
+        if ftext:
+            frm = ast.From(copy.deepcopy(exprs[c['from']]), FROM_DATES.get(c['open']), True if c['close'] < 0 else FROM_DATES.get(c['close']),
+                           True if c['clear'] else None)
+        if c['kind'] == 'select':
+            return t, ast.Select([ast.Target(ast.Column('account'), None)], frm, None, None, None, None, None, None)
+        if c['kind'] == 'balances':
+            return t, ast.Balances(None, frm, None)
+        if c['kind'] == 'journal':
+            return t, ast.Journal('Cash', None, frm)
+        return t, ast.Print(frm)
+
+    def compile_(stmt):
+        try:
+            conn.compile(stmt)
+            return True, None
+        except beanquery.CompilationError as ex:
+            return False, ex
+        except Exception as ex:  # noqa
+            return None, ex
+
+    nrej = 0
+    for idx, c in enumerate(cases):
+        if ctx.quick and c['kind'] in ('balances', 'journal') and idx % 3:
+            continue            # their compilation re-parses a template (slow): every third case in the quick tier
+        t, stmt = build(c)
+        ok, ex = compile_(stmt)
+        ctx.case('from:' + t, not c['ok'])
+        ctx.traces += 1
+        nrej += not c['ok']
+        key = 'from:%s:%s' % (c['kind'], c['err'] or 'valid')
+        if ok is None:
+            ctx.violation(key + ':' + type(ex).__name__, 'compiling the statement: %s escapes: %s' % (type(ex).__name__, ex), {'text': t, 'case': c}, 'S2C',
+                          'accepted' if c['ok'] else 'CompilationError (%s)' % c['err'], repr(ex))
+        elif ok != c['ok']:
+            ctx.violation(key + (':rejected' if c['ok'] else ':accepted'), 'FROM-clause rules: statement %s' % ('wrongly rejected' if c['ok'] else 'violating "%s" is accepted' % c['err']),
+                          {'text': t, 'case': c}, 'S2C', 'accepted' if c['ok'] else 'CompilationError (%s)' % c['err'], 'accepted' if ok else repr(ex))
+    # ---- C2S: the same space through the text route (random subset), and attribute access on every column of every table
+    events = []
+    sub = ctx.rng.sample(cases, ctx.pick(120, 960))
+    for c in sub:
+        t, stmt = build(c, text=True)
+        ok, ex = compile_(stmt)
+        if ok is None:
+            ctx.violation('from:text:' + type(ex).__name__, '%s escapes: %s' % (type(ex).__name__, ex), {'text': t}, 'C2S')
+            continue
+        events.append({'id': len(events) + 1, 'what': 'from', 'kind': c['kind'], 'from': c['from'], 'open': c['open'], 'close': c['close'],
+                       'clear': c['clear'], 'ok': ok, 'structured': 0, 'known': 0, 'text': t})
+
+    def structured(dtype):
+        d = types.ALIASES.get(dtype, dtype)
+        return d if isinstance(d, type) and issubclass(d, types.Structure) else None
+
+    def walk(tn, node, path, dtype, depth):
+        sd = structured(dtype)
+        attrs = (list(sd.columns) if sd else []) + ['nope', 'date_', 'x']
+        for an in attrs:
+            e = ast.Attribute(copy.deepcopy(node), an)
+            stmt = selectq.bql.select_ast([(e, 'r')], tn)
+            ok, ex = compile_(stmt)
+            t = 'SELECT %s.%s FROM #%s' % (path, an, tn)
+            ctx.case('attr:' + t, not (sd and an in sd.columns))
+            if ok is None:
+                ctx.violation('attr:' + type(ex).__name__, '%s escapes: %s' % (type(ex).__name__, ex), {'text': t}, 'C2S')
+                continue
+            events.append({'id': len(events) + 1, 'what': 'attr', 'kind': '', 'from': '', 'open': 0, 'close': 0, 'clear': False, 'ok': ok,
+                           'structured': 1 if sd else 0, 'known': 1 if sd and an in sd.columns else 0, 'text': t})
+            if sd and an in sd.columns and depth < 2:
+                walk(tn, e, path + '.' + an, sd.columns[an].dtype, depth + 1)
+    for tn, tab in conn.tables.items():
+        if not tn:
+            continue
+        for cn, col in tab.columns.items():
+            walk(tn, ast.Column(cn), cn, col.dtype, 0)
+    # the same values handed on by a subquery keep their datatype
+    for tn, cn in (('accounts', 'open'), ('accounts', 'close'), ('postings', 'position'), ('postings', 'entry'), ('postings', 'account')):
+        sub_ = selectq.bql.select_ast([(ast.Column(cn), 'o')], tn)
+        d = conn.tables[tn].columns[cn].dtype
+        sd = structured(d)
+        for an in (list(sd.columns) if sd else []) + ['nope']:
+            stmt = selectq.bql.select_ast([(ast.Attribute(ast.Column('o'), an), 'r')], sub_)
+            ok, ex = compile_(stmt)
+            if ok is None:
+                ctx.violation('attr:sub:' + type(ex).__name__, '%s escapes: %s' % (type(ex).__name__, ex), {'text': '%s.%s via subquery' % (cn, an)}, 'C2S')
+                continue
+            events.append({'id': len(events) + 1, 'what': 'attr', 'kind': '', 'from': '', 'open': 0, 'close': 0, 'clear': False, 'ok': ok,
+                           'structured': 1 if sd else 0, 'known': 1 if sd and an in sd.columns else 0,
+                           'text': 'SELECT o.%s FROM (SELECT %s AS o FROM #%s)' % (an, cn, tn)})
+    path = ctx.path('stmtrules.ndjson')
+    with open(path, 'w') as f:
+        for e in events:
+            f.write(json.dumps(e) + '\n')
+    res = ctx.tlc('Trace_StmtRules', 'Trace_StmtRules.cfg', leg='C2S', workers=1, env={'TRACE_FILE': path})
+    nbad = 0
+    for rj in res.printed:
+        if isinstance(rj, dict) and rj.get('verdict') == 'rejected':
+            ev = events[rj['line'] - 1]
+            nbad += 1
+            ctx.violation('%s:%s' % (ev['what'], rj['clause']), 'recorded compilation not explained by the specification: ' + rj['clause'],
+                          {'text': ev['text'], 'event': ev}, 'C2S', not ev['ok'], ev['ok'])
+    if res.post_failed or res.depth - 1 != len(events):
+        raise MachineryError('Trace_StmtRules did not consume the trace')
+    ctx.traces += len(events) - nbad
+    nattr = sum(1 for e in events if e['what'] == 'attr')
+    if nattr < 100 or not any(e['what'] == 'attr' and e['ok'] for e in events) or nrej < 100:
+        raise MachineryError('vacuity: attribute walk / rejected FROM clauses too small')
+    ctx.leg('S2C+C2S:stmt-rules', from_cases=len(cases), from_rejected_by_spec=nrej, from_as_text=len(sub), attribute_statements=nattr,
+            attribute_accepted=sum(1 for e in events if e['what'] == 'attr' and e['ok']))
+
+
 def run(ctx):
     ctx.rule = ('S2C: every ill-typed expression spine of depth 1 (quick: every 3rd) and every (table, query) state of the '
                 'valid+invalid query space; C2S: random trees and mutated / arbitrary statement texts; distinct by skeleton / '
@@ -269,6 +423,7 @@ def run(ctx):
     n = exprcheck.random_cases(ctx, path, ctx.pick(700, 20000), 5, 6)
     exprcheck.validate_expr_trace(ctx, path, n, prop_filter=lambda clause, ev: 'accepts' in clause or 'rejects' in clause or ev.get('exc'))
     text_leg(ctx)
+    stmt_rules_leg(ctx)
     ctx.exhaustive = False
 
 
